@@ -84,4 +84,79 @@ pub proof fn lemma_one_count(s: Seq<Str>, p: spec_fn(Str) -> bool, i: int)
         if p(s.last()) { assert(s.filter(p) == t.filter(p).push(s.last())); } else { assert(s.filter(p) == t.filter(p)); }
     }
 }
+
+/// entry i >= 1 of the fee list: a token-factory fee in another denom than the pool creation fee, paid exactly
+pub open spec fn tf_entry_ok(total: Seq<Coin>, funds: Seq<Coin>, pcf: Coin, tf: Seq<Coin>, i: int) -> bool {
+    exists|k: int| 0 <= k < tf.len() && (#[trigger] tf[k]).denom@ == total[i].denom@ && tf[k].denom@ != pcf.denom@
+        && total[i].amount@ == tf[k].amount@ && coin_sum(funds, tf[k].denom@) == tf[k].amount@
+}
+pub open spec fn tf_paid(funds: Seq<Coin>, pcf: Coin, tf: Seq<Coin>, k: int) -> bool {
+    tf[k].denom@ != pcf.denom@ ==> coin_sum(funds, tf[k].denom@) == tf[k].amount@
+}
+pub open spec fn fees_list_ok(total: Seq<Coin>, funds: Seq<Coin>, pcf: Coin, tf: Seq<Coin>, n_tf_checked: int) -> bool {
+    total.len() >= 1 && total[0].denom@ == pcf.denom@ && total[0].amount@ == coin_sum(funds, pcf.denom@)
+    && (forall|i: int| 1 <= i < total.len() ==> #[trigger] tf_entry_ok(total, funds, pcf, tf, i))
+    && (forall|k: int| 0 <= k < n_tf_checked ==> #[trigger] tf_paid(funds, pcf, tf, k))
+}
+pub proof fn lemma_coin_sum_distinct_bound(s: Seq<Coin>, d: Seq<char>)
+    requires denoms_distinct(s),
+    ensures coin_sum(s, d) <= U128_MAX,
+{
+    if has_denom(s, d) {
+        let j = choose|j: int| 0 <= j < s.len() && #[trigger] s[j].denom@ == d;
+        lemma_coin_sum_distinct(s, j);
+    } else {
+        lemma_coin_sum_absent(s, d);
+    }
+}
+pub proof fn lemma_fees_list_push(total: Seq<Coin>, funds: Seq<Coin>, pcf: Coin, tf: Seq<Coin>, n: int, c: Coin)
+    requires fees_list_ok(total, funds, pcf, tf, n), 0 <= n < tf.len(),
+        tf[n].denom@ != pcf.denom@ ==> (c.denom@ == tf[n].denom@ && c.amount@ == tf[n].amount@ && coin_sum(funds, tf[n].denom@) == tf[n].amount@),
+    ensures tf[n].denom@ != pcf.denom@ ==> fees_list_ok(total.push(c), funds, pcf, tf, n + 1),
+        tf[n].denom@ == pcf.denom@ ==> fees_list_ok(total, funds, pcf, tf, n + 1),
+{
+    if tf[n].denom@ != pcf.denom@ {
+        let t2 = total.push(c);
+        assert forall|i: int| 1 <= i < t2.len() implies #[trigger] tf_entry_ok(t2, funds, pcf, tf, i) by {
+            if i < total.len() { assert(tf_entry_ok(total, funds, pcf, tf, i)); assert(t2[i] == total[i]); }
+        }
+        assert forall|k: int| 0 <= k < n + 1 implies #[trigger] tf_paid(funds, pcf, tf, k) by {
+            if k < n { assert(tf_paid(funds, pcf, tf, k)); }
+        }
+    } else {
+        assert forall|k: int| 0 <= k < n + 1 implies #[trigger] tf_paid(funds, pcf, tf, k) by {
+            if k < n { assert(tf_paid(funds, pcf, tf, k)); }
+        }
+    }
+}
+
+// @lemma create_pool_exact_funds [C16,C01]
+/// C16: the two validations together force the attached funds to be exactly creation fee + token-factory fees
+pub proof fn lemma_exact_funds(funds: Seq<Coin>, pcf: Coin, tf: Seq<Coin>, total: Seq<Coin>, d: Seq<char>)
+    requires
+        denoms_distinct(tf),
+        fees_list_ok(total, funds, pcf, tf, tf.len() as int),
+        coin_sum(funds, pcf.denom@) == required_funds(pcf, tf, pcf.denom@),
+        forall|k: int| 0 <= k < funds.len() ==> #[trigger] fund_has_entry(total, funds, k),
+    ensures coin_sum(funds, d) == required_funds(pcf, tf, d),
+{
+    if d == pcf.denom@ {
+    } else if has_denom(tf, d) {
+        let k = choose|k: int| 0 <= k < tf.len() && #[trigger] tf[k].denom@ == d;
+        assert(tf_paid(funds, pcf, tf, k));
+        lemma_coin_sum_distinct(tf, k);
+    } else {
+        lemma_coin_sum_absent(tf, d);
+        if has_denom(funds, d) {
+            let k = choose|k: int| 0 <= k < funds.len() && #[trigger] funds[k].denom@ == d;
+            assert(fund_has_entry(total, funds, k));
+            let i = choose|i: int| 0 <= i < total.len() && (#[trigger] total[i]).denom@ == funds[k].denom@ && total[i].amount@ == coin_sum(funds, funds[k].denom@);
+            if i >= 1 {
+                assert(tf_entry_ok(total, funds, pcf, tf, i));
+            }
+            assert(false);
+        }
+        lemma_coin_sum_absent(funds, d);
+    }
+}
 } // verus!
